@@ -447,7 +447,10 @@ def rule_PI(run: Run) -> RuleResult:
             # comprehension filters hold for every element that was kept
             at = Frame.atoms(list(p.conds) + [(e.text, True, e.target.key()) for e in p.events if e.kind == "filter" and e.target is not None])
             for e in gets:
-                if len(e.args) != 2 or not (e.args[0].key().startswith("attr:name(") and e.args[1].key() == "attr:default(" + e.args[0].key()[len("attr:name("):]):
+                a0_, a1_ = (e.args[0].key(), e.args[1].key()) if len(e.args) == 2 else ("", "")
+                # (``signature.parameters`` maps each parameter's name to the parameter: its key is param.name)
+                by_item = a0_.startswith("key(attr:parameters(") and a1_ == "attr:default(elem(" + a0_[len("key("):] + ")"
+                if len(e.args) != 2 or not (by_item or (a0_.startswith("attr:name(") and a1_ == "attr:default(" + a0_[len("attr:name("):])):
                     ok, why = False, f"default looked up as kwargs.get({', '.join(a_.key()[:40] for a_ in e.args)})"
             kw_ = r_.attrs.get("arguments")
             kk = kw_.key() if kw_ is not None else ""
